@@ -306,11 +306,14 @@ func cmdCheck(args []string) {
 			driftHere = append(driftHere, d)
 		}
 	}
-	// a contract that names a loop the function no longer has is drift too
+	// A contract that names a loop the function no longer has: the stale loop clauses are ignored
+	// (reported below as a note), the other obligations of the function are checked as usual -- a
+	// postcondition that was discharged with the help of the old invariants and no longer is shows
+	// up as a claimed obligation that fails.
 	for _, r := range results {
 		for _, u := range r.Unsupported {
 			if strings.Contains(u, "contract names loop") || strings.Contains(u, "loop structure mismatch") {
-				driftHere = append(driftHere, r.Name()+" ("+u+")")
+				fmt.Printf("NOTE stale loop clauses in the contract of %s: %s\n", r.Name(), u)
 			}
 		}
 	}
